@@ -4,7 +4,7 @@
    (correspondence on the real TimerQueue, ASan; the forced add-vs-fire schedule on the real code)
    and the generated fact Gen_C07.TimerQueue_addTimer_reads_seq_after_handoff. *)
 From Coq Require Import List ZArith Lia Bool.
-From Muduo Require Import Gen_Consts Gen_C06 Gen_C07 C06_Model C06_Proofs C07_Model C07_Proofs.
+From Muduo Require Import Gen_Consts Gen_C06 Gen_C07 C06_Model C06_Proofs C06_Hist C06_GenTie C07_Model C07_Proofs.
 Import ListNotations.
 Local Open Scope Z_scope.
 
@@ -12,10 +12,8 @@ Local Open Scope Z_scope.
    processed, the timer NEVER runs again, whatever ops follow (adds at the same address, expiries,
    foreign ops, ...), and its sequence number never comes back.  The cancel itself erases it from
    both sets and frees the object (C07_cancel_erases).
-   Not covered by a theorem (tied by the oracle of the correspondence check only): a cancel issued
-   from inside an expiry batch against a member of that same batch (self / sibling cancel of a
-   repeater is not re-inserted; a one-shot is deleted anyway -- after the batch both are dead and
-   C07_dead_id_never_runs applies). *)
+   A cancel issued from inside an expiry batch against a member of that same batch (self / sibling
+   cancel) is C07_same_batch_cancel below. *)
 Theorem C07_cancel_stops : forall c ops st evs a s ops2 st2 evs2,
   run (init c) ops = Ok (st, evs) -> In (a, s) (active st) ->
   run st (Cb (CCancel a s) :: ops2) = Ok (st2, evs2) ->
@@ -36,6 +34,39 @@ Theorem C07_dead_id_never_runs : forall st s ops2 st2 evs2, gone st s -> run st 
   (forall dl now t, ~ In (ERun s dl now t) evs2) /\ gone st2 s.
 Proof. exact dead_stays_dead. Qed.
 Print Assumptions C07_dead_id_never_runs.
+
+(* Same-batch cancel.  A timer (repeater or one-shot) that is due in an expiry and whose id is
+   cancelled by ANY callback that runs in that expiry -- its own (self-cancel), an earlier or a later
+   sibling; i-th group of the script, i < number of due timers -- runs exactly the one invocation
+   that was already due (filed under its deadline d), is NOT re-inserted by TimerQueue::reset but
+   deleted, and is dead afterwards; by C07_dead_id_never_runs it never runs again. *)
+Theorem C07_same_batch_cancel : forall c ops st evs script st' ev d a o i g,
+  run (init c) ops = Ok (st, evs) -> fire st script = Ok (st', ev) ->
+  In (d, a) (timers st) -> d <= clk st -> hget a (heap st) = Some o ->
+  nth_error script i = Some g -> (i < length (due st))%nat -> In (CCancel a (o_seq o)) g ->
+  gone st' (o_seq o) /\ ~ In (a, o_seq o) (active st') /\
+  (exists t, In (ERun (o_seq o) d (clk st) t) ev) /\ length (runs_of (o_seq o) ev) = 1%nat.
+Proof. exact same_batch_cancel. Qed.
+Print Assumptions C07_same_batch_cancel.
+
+(* In one expiry no sequence number runs twice. *)
+Theorem C07_once_per_expiry : forall c ops st evs script st' ev s, run (init c) ops = Ok (st, evs) ->
+  fire st script = Ok (st', ev) -> (length (runs_of s ev) <= 1)%nat.
+Proof. exact fire_once. Qed.
+Print Assumptions C07_once_per_expiry.
+
+(* The two tests of TimerQueue::cancelInLoop in the CURRENT sources (regenerated from the clang AST:
+   `it != activeTimers_.end()` with it = activeTimers_.find(ActiveTimer(timerId.timer_,
+   timerId.sequence_)), `else if (callingExpiredTimers_)`) are the tests the model performs, the
+   found branch erases both entries and deletes, the other one records the id in cancelingTimers_;
+   reset consults cancelingTimers_ under the key (ptr, sequence) (C06_generated_guards). *)
+Theorem C07_generated_guards :
+  (forall st a s, cancel_in_loop st a s = cancel_src st a s) /\
+  (forall ex st now, reset_loop st ex now = reset_loop_src st ex now) /\
+  TimerQueue_cancelInLoop_found_erases_both_deletes = true /\ TimerQueue_cancelInLoop_marks_canceling = true /\
+  TimerQueue_reset_then_restart_insert = true /\ TimerQueue_reset_else_delete = true.
+Proof. exact (conj cancel_is_source (conj reset_loop_is_source (conj eq_refl (conj eq_refl (conj eq_refl eq_refl))))). Qed.
+Print Assumptions C07_generated_guards.
 
 (* The faithful model falsifies the full text in one more situation: a loop-thread cancel(id) that
    is processed while the foreign thread's addTimerInLoop is still queued finds nothing, and the
@@ -120,3 +151,18 @@ Example C07_cancel_active_nonvacuous :
       | _ => False end
   | _ => False end.
 Proof. vm_compute. auto. Qed.
+
+(* non-vacuity of C07_same_batch_cancel: two repeaters (seq 1 at address 10, seq 2 at address 20) due in
+   the same expiry; the first callback cancels its sibling 2 (which has not run yet) and itself: both
+   run the invocation already due, neither is re-inserted, both are dead; nothing runs later *)
+Example C07_same_batch_nonvacuous :
+  match run (init 1000) [Cb (CAdd 2000 1000 10); Cb (CAdd 2000 1000 20); Cb (CTick 1000)] with
+  | Ok (st, _) =>
+      In (2000, 10) (timers st) /\ In (2000, 20) (timers st) /\ clk st = 2000 /\ length (due st) = 2%nat /\
+      hget 10 (heap st) = Some (mkT 1 2000 1000) /\ hget 20 (heap st) = Some (mkT 2 2000 1000) /\
+      match fire st [[CCancel 20 2; CCancel 10 1]; []] with
+      | Ok (st', ev) => rlog ev = [(1, 2000, 2000); (2, 2000, 2000)] /\ timers st' = [] /\ heap st' = [] /\
+          match run st' [Cb (CTick 5000); Fire []] with Ok (_, ev2) => rlog ev2 = [] | _ => False end
+      | _ => False end
+  | _ => False end.
+Proof. vm_compute. auto 20. Qed.
